@@ -1189,7 +1189,7 @@ def parts(tier):
             "scripts",
             run,
             strategy=cases(maxlen),
-            n={"quick": 40000, "thorough": 480000},
+            n={"quick": 40000, "thorough": 1440000},
             require=_REQUIRE_SCRIPTS,
             shards={"quick": 16, "thorough": 16},
         ),
